@@ -21,12 +21,30 @@ pub fn nonzero(r: &mut ChaCha20Rng) -> Scalar {
 }
 
 /// entries from {0, 1, q-1, small, random}
+/// 2^k as a scalar (k < 255)
+pub fn pow2(k: u32) -> Scalar {
+    let mut l = [0u64; 4];
+    l[(k / 64) as usize] = 1u64 << (k % 64);
+    Scalar::from_raw(l)
+}
+
+/// edge values of the scalar field: 0, 1, q-1, small, and the representation boundaries (one-limb values
+/// with and without the top bit, powers of two at byte / limb / half-width boundaries and their neighbours,
+/// two-limb values) — arithmetic shortcuts on "small" scalars break exactly there
 pub fn edge_scalar(r: &mut ChaCha20Rng) -> Scalar {
-    match r.gen_range(0..10) {
+    match r.gen_range(0..16) {
         0 => Scalar::zero(),
         1 => Scalar::one(),
         2 => dl::q_minus_1(),
         3 => Scalar::from(r.gen_range(2..1000u64)),
+        4 => Scalar::from(r.gen::<u64>()),
+        5 => Scalar::from(r.gen::<u64>() | (1u64 << 63)),
+        6 => {
+            let k = [7u32, 8, 31, 32, 62, 63, 64, 65, 127, 128, 191, 192, 253, 254][r.gen_range(0..14)];
+            match r.gen_range(0..3) { 0 => pow2(k), 1 => pow2(k) - Scalar::one(), _ => pow2(k) + Scalar::from(r.gen_range(1..1000u64)) }
+        }
+        7 => Scalar::from_raw([r.gen(), r.gen(), 0, 0]),
+        8 => -Scalar::from(r.gen_range(1..1000u64)),
         _ => rand_scalar(r),
     }
 }
